@@ -145,6 +145,11 @@ inductive Site
   | callBindTarget    -- eval/mod.rs prepare_bindings: OUT / IN_OUT argument that is not an l-value
   | callUndefined     -- eval/expr/eval.rs Expr::Call: no function / instance of that name
   | fbFlow            -- eval/mod.rs call_function_block: body ended with Exit / LoopContinue
+  | indexNotInt       -- eval/expr/access.rs index_to_i64: `_ => TypeMismatch`
+  | indexBounds       -- eval/expr/access.rs array_offset: IndexOutOfBounds
+  | indexOfNonArray   -- eval/expr/access.rs read_indices / write_indices: `_ => TypeMismatch`
+  | fieldName         -- eval/expr/access.rs read_field / write_field: UndefinedField
+  | fieldOfNonStruct  -- eval/expr/access.rs read_field / write_field: `_ => TypeMismatch`
   | budget            -- eval/stmt.rs check_execution_budget (model: fuel exhausted)
   | latched           -- runtime/cycle.rs execute_cycle: resource already faulted
   deriving DecidableEq, Repr, Inhabited
